@@ -9,6 +9,9 @@
  *   TIMEOUT          the response timer fires
  *   DATA <hex>       datagram arrives on the TRXD socket, read callback runs
  *   BURST <fn> <tn> <pwr> <hexbits>   trx_if_handle_phyif_burst_req()
+ *   UL <pwr> <hexbits>   an uplink channel is active: every RTS.ind is answered, from inside
+ *                    the callback as trxcon's scheduler does, with a BURST.req carrying these
+ *                    bits for the requested frame; "UL 0" (no bits) switches it off
  *   CLOSE            trx_if_close()
  * Every output line carries the interface status after the operation:
  *   st (FSM state), term (terminated), q (queued commands), timer (armed),
@@ -138,9 +141,21 @@ int trxcon_phyif_handle_burst_ind(void *priv, const struct trxcon_phyif_burst_in
 	return 0;
 }
 
+static uint8_t ul_bits[1024];
+static size_t ul_n;
+static unsigned int ul_pwr;
+
 int trxcon_phyif_handle_rts_ind(void *priv, const struct trxcon_phyif_rts_ind *rts)
 {
 	ev("{\"k\":\"rts_ind\",\"fn\":%u,\"tn\":%u}", rts->fn, rts->tn);
+	if (ul_n && trx) {
+		/* trxcon: RTS.ind -> l1sched_pull_burst() -> BURST.req, synchronously */
+		struct trxcon_phyif_burst_req br = {
+			.fn = rts->fn, .tn = rts->tn, .pwr = ul_pwr, .burst = ul_bits, .burst_len = ul_n,
+		};
+		int rc = trx_if_handle_phyif_burst_req(trx, &br);
+		ev("{\"k\":\"ul_req\",\"fn\":%u,\"tn\":%u,\"rc\":%d}", br.fn, br.tn, rc);
+	}
 	return 0;
 }
 
@@ -298,6 +313,13 @@ int main(void)
 			br.burst_len = n;
 			rc = trx_if_handle_phyif_burst_req(trx, &br);
 			status("BURST", rc);
+		} else if (!strncmp(p, "UL ", 3)) {
+			char *e = p + 3;
+			size_t k;
+			ul_pwr = strtoul(e, &e, 10);
+			ul_n = parse_hex(e, ul_bits, sizeof(ul_bits));
+			for (k = 0; k < ul_n; k++) ul_bits[k] &= 1;
+			status("UL", 0);
 		} else if (!strncmp(p, "CLOSE", 5)) {
 			trx_if_close(trx);
 			status("CLOSE", 0);
